@@ -300,6 +300,10 @@ def order_constraints(boxes: Sequence[Box], boxes_flow: Optional[Fraction]) -> T
       column strictly closer than any merge across the gutter): left column
       before right column whenever the horizontal position matters
       (boxes_flow < 1); top to bottom inside a column for boxes_flow > -1.
+    box beside column (one box on the left spanning the whole height, two or more vertically disjoint boxes
+      with a common left edge on the right, same top and bottom): the same constraints.  This rests on the
+      property statement ("two columns of equal vertical extent: left before right"), not on R5: by closeness
+      alone the left box may well be nearest to the top right box.
     """
     n = len(boxes)
     cons: List[Tuple[int, int]] = []
@@ -355,4 +359,16 @@ def order_constraints(boxes: Sequence[Box], boxes_flow: Optional[Fraction]) -> T
                     if boxes_flow > -1:
                         cons += top_down(left) + top_down(right)
                     return ("two_columns", cons)
+        # one tall box beside a column of several boxes of the same vertical extent (the property's "a left column
+        # before a right one" for two columns of equal extent; the right column may be ragged on its right side)
+        if len(left) == 1 and len(right) >= 2 and len({boxes[i][0] for i in right}) == 1:
+            lb, rb = boxes[left[0]], union([boxes[i] for i in right])
+            s = sorted(right, key=lambda i: -boxes[i][3])
+            disjoint = all(boxes[s[k]][1] > boxes[s[k + 1]][3] for k in range(len(s) - 1))
+            if disjoint and lb[2] < rb[0] and lb[1] == rb[1] and lb[3] == rb[3]:
+                if boxes_flow < 1:
+                    cons += [(left[0], j) for j in right]
+                if boxes_flow > -1:
+                    cons += top_down(right)
+                return ("box_beside_column", cons)
     return ("other", cons)
